@@ -96,6 +96,25 @@ def run(tier, seed):
                         (cs, cs, float(np.abs(got - ex).max()) if got.shape == ex.shape else -1), {"cs": cs})
         if np.asarray(cached).shape != got.shape or not np.array_equal(np.asarray(cached), got):
             v.violation("cached ROTATIONS[%d] differs from rotations(%d)" % (cs, cs), {"cs": cs})
+        # what the functions hand out is the caller's: overwrite it and ask again (tables, cache and Umis must be unaffected)
+        try:
+            ref_pair = (cay([1, 2, -1], 3), cay([-2, 1, 1], 2))
+            before = np.asarray(symmetry.Umis(ref_pair[0], ref_pair[1], cs), dtype=float).copy()
+            for obj in (got, got2, perm):
+                arr = np.asarray(obj)
+                if arr.flags.writeable:
+                    arr *= 0
+                    arr += 5
+            after = np.asarray(symmetry.Umis(ref_pair[0], ref_pair[1], cs), dtype=float)
+            again = np.asarray(symmetry.rotations(cs), dtype=float)
+            pagain = np.asarray(symmetry.permutations(cs), dtype=float)
+            if not np.array_equal(before, after) or again.shape != ex.shape or np.abs(again - ex).max() > 1e-12 or not np.array_equal(pagain, perm0):
+                v.violation("after the caller overwrote the arrays returned by rotations(%d)/permutations(%d), the functions or Umis answer differently "
+                            "(results share storage with the module's tables or cache)" % (cs, cs), {"cs": cs})
+            perm = pagain
+            got = again
+        except Exception as ex_:
+            v.violation("rotations/permutations/Umis raised %r after the caller modified earlier results" % ex_, {"cs": cs})
         if not np.array_equal(perm, np.array(sym[cs - 1]["perm"], dtype=float)):
             v.violation("permutations(%d) returned a different table now than when the tables were exported a moment ago" % cs, {"cs": cs})
         # float-level pairing on a random conforming cell (tools and laue B)
